@@ -12,7 +12,7 @@ from simkit import repo
 repo.activate()
 
 from happysimulator.core.simulation import Simulation  # noqa: E402
-from happysimulator.core.temporal import Instant  # noqa: E402
+from happysimulator.core.temporal import Duration, Instant  # noqa: E402
 
 from simkit.refengine import RefEngine  # noqa: E402
 from simkit.scriptprog import ProgramRunner, gen_program  # noqa: E402
@@ -43,7 +43,8 @@ ASSUMPTIONS = [
 EXPECTED_PROBES = ["probe.tie_prerun_vs_inrun", "probe.cancelled_skipped", "probe.past_discarded",
                    "probe.daemon_left_pending", "probe.generator_resumed", "probe.crashed_target_skipped",
                    "probe.events_created_before_simulation", "probe.cancelled_after_schedule",
-                   "probe.event_object_retimed_and_returned"]
+                   "probe.event_object_retimed_and_returned", "probe.nonzero_start_with_duration",
+                   "probe.event_before_start_time_discarded"]
 SHRINK_SKIP = ("n_entities", "n_kinds")
 
 
@@ -56,6 +57,12 @@ def gen(rng, tier):
     r = rng.random()
     n = len(prog["initial"])
     prog["create_before_sim"] = 0 if r < 0.6 else (n if r < 0.75 else rng.randint(0, n))
+    # a run that does not begin at the epoch; the same end expressed as end_time= or as duration=
+    if rng.random() < 0.2:
+        prog["start"] = rng.choice([1, 1_000, 1_000, 100_000_000, 200_000_000])
+        if prog["end"] is not None and prog["end"] < prog["start"]:
+            prog["end"] = prog["start"] + prog["end"]
+    prog["use_duration"] = prog["end"] is not None and rng.random() < 0.4
     return prog
 
 
@@ -80,6 +87,11 @@ def _validate(sc):
     for i in sc["initial"]:
         if not ok_emit(i) or i["t"] < 0:
             raise InvalidScenario("initial out of range")
+    st = sc.get("start", 0)
+    if st < 0 or (sc.get("end") is not None and sc["end"] < st):
+        raise InvalidScenario("run window ends before it starts")
+    if sc.get("use_duration") and sc.get("end") is None:
+        raise InvalidScenario("duration needs an end")
     if sc.get("mode") == "fast" and sc.get("end") is None:
         raise InvalidScenario("fast loop needs end_time")
 
@@ -96,7 +108,13 @@ def run_engine(sc):
     cb = sc.get("create_before_sim", 0)
     n_before = len(sc["initial"]) if cb is True else int(cb or 0)
     pr.create_initial(0, n_before)          # built before the Simulation object exists
-    sim = Simulation(entities=pr.entities, end_time=Instant(end) if end is not None else None)
+    st = sc.get("start", 0)
+    kw = {"start_time": Instant(st)} if st else {}
+    if sc.get("use_duration"):
+        kw["duration"] = Duration(end - st)          # the same run window, stated as a length
+    elif end is not None:
+        kw["end_time"] = Instant(end)
+    sim = Simulation(entities=pr.entities, **kw)
     pr.sim = sim
     pr.create_initial(n_before, None)       # built afterwards (the usual way)
     evs = pr.initial_in_schedule_order()
@@ -118,7 +136,7 @@ def compare(sc, pr, summary, ref) -> tuple[str | None, str]:
     if pr.problems:
         return pr.problems[0]
     E = pr.log
-    last = -1
+    last = sc.get("start", 0)
     for uid, step, clk, evt in E:
         if step < 0 and clk != evt:
             return "clock-ne-event-time", f"uid={uid} delivered with clock={clk} but event.time={evt}"
@@ -195,6 +213,8 @@ def run(sc):
         "probe.events_created_before_simulation": int(0 < (len(sc["initial"]) if sc.get("create_before_sim") is True else int(sc.get("create_before_sim") or 0)) < len(sc["initial"])),
         "probe.cancelled_after_schedule": int(any(i.get("cancel") == "late" for i in sc["initial"])),
         "probe.event_object_retimed_and_returned": int(any(x[1] < -1 for x in ref.log)),
+        "probe.nonzero_start_with_duration": int(bool(sc.get("start")) and bool(sc.get("use_duration"))),
+        "probe.event_before_start_time_discarded": int(bool(sc.get("start")) and ref.discarded_past > 0),
         f"mode.{sc.get('mode')}": 1,
         "deliveries_past_end_time_observed": sum(1 for x in pr.log if sc.get("end") is not None and x[2] > sc["end"]),
     }
